@@ -168,7 +168,16 @@ def install(eng):
 
     # ------------------------------------------------------------ libc strings
     @model('strlen')
-    def m_strlen(st, a): return len(eng.read_cstr(st, a[0]))
+    def m_strlen(st, a):
+        p = a[0]; i = 0
+        while True:
+            b = eng.load(st, P(p.obj, p.off + i), 1)
+            if isinstance(b, Undef): raise Bug('undef', 'strlen reads an uninitialised byte', eng._m(st))
+            if b.__class__ is int:
+                if b == 0: return i
+            elif eng.decide(st, E.bv(b, 8) == 0): return i      # a symbolic byte may be the terminator
+            i += 1
+            if i > 65536: raise Inconclusive('cap', 'unterminated string')
     @model('memcmp', 'bcmp')
     def m_memcmp(st, a):
         p, q = a[0], a[1]; n = eng.concretize(st, a[2], 'memcmp length')
